@@ -29,7 +29,8 @@ DEADLINE = {"quick": 200, "thorough": 3000}
 
 POINTS = list(itertools.product([True, None, False], ["absent", "valid", "corrupt", "empty"], [True, None, False],
                                 [None, ["rs"], ["rsx"]], [True, False]))
-ERRS = ["no_cfg", "bad_yaml", "no_source_dir_key", "src_missing", "src_is_file", "no_files", "cfg_is_dir"]
+ERRS = ["no_cfg", "bad_yaml", "no_source_dir_key", "src_missing", "src_is_file", "no_files", "cfg_is_dir", "no_rust_stanza",
+        "rust_stanza_empty", "cfg_empty", "cfg_is_list"]
 NPOINT = len(POINTS) + len(ERRS) * 2
 # every entry fails to parse as the lock structure (verified against the tool: invalid YAML, wrong type, duplicate or missing
 # key); several still contain a line that *looks* like a valid entry
@@ -278,6 +279,14 @@ def build_error(rng, kind):
         wm["cfg"]["source_dir"] = "./src/a.rs"
     elif kind == "no_files":
         wm["cfg"]["extensions"] = rng.choice([["zzz"], []])
+    elif kind == "no_rust_stanza":
+        wm["cfg_raw"] = ("---\nsource_dir: ./src\n" + rng.choice(["", "use_cache: true\n", "use_cache: false\n"])).encode()
+    elif kind == "rust_stanza_empty":
+        wm["cfg_raw"] = b"---\nsource_dir: ./src\nrust:\n"
+    elif kind == "cfg_empty":
+        wm["cfg_raw"] = rng.choice([b"", b"---\n", b"# only a comment\n"])
+    elif kind == "cfg_is_list":
+        wm["cfg_raw"] = b"- source_dir: ./src\n- rust: {}\n"
     elif kind == "cfg_is_dir":
         wm["cfg_name"] = "Other.yaml"
         wm["extra"]["proj/Breadlog.yaml"] = {"t": "d", "mode": 0o755}
